@@ -181,7 +181,156 @@ def cq_robs(obs):
             oc = "OExn (EViol (%s))" % cq_site(o[1])
         else:
             oc = "OExn (EUser (-1)%Z)"    # anything else (RecursionError, library errors): never equal to a model outcome
-        ks = C.cq_list(["KF %d" % k[1] if k[0] == "f" else ("KO %d" % k[1] if k[0] == "o" else "KF 99999")
+        ks = C.cq_list(["KF %d" % k[1] if k[0] == "f" else ("KO %d" % k[1] if k[0] == "o" else "KF 4999")
                         for k in op["in_progress"]])
         out.append("(%s, %s, %s)" % (tr, oc, ks))
     return C.cq_list(out)
+
+
+# ------------------------------------------------------------------ C12: concurrent worlds
+def gen_conc_case(rng, mode=None):
+    mode = mode or rng.choice(["asyncio", "asyncio", "threads"])
+    g = GenRun(rng, is_async=True, faults=0.03, awaits=0.6)   # awaits are gates in both modes
+    nf = rng.choice([1, 1, 2])
+    prog = g.program(nf=nf, nc=0)
+    prog["async"] = (mode == "asyncio")
+    # make sure the first function has a suspension point inside a contract or its body
+    f0 = prog["fns"][0]
+    if not f0["pre"]:
+        f0["pre"] = [[[[], ["ret", True]]]]
+    where = rng.choice(["pre", "pre", "body", "post"])
+    if where == "pre":
+        f0["pre"][0][0][0].append(["await", g.next_pt]); g.next_pt += 1
+    elif where == "body":
+        f0["body"][0].append(["await", g.next_pt]); g.next_pt += 1
+    else:
+        if not f0["post"]:
+            f0["post"] = [[[], ["ret", True]]]
+        f0["post"][0][0].append(["await", g.next_pt]); g.next_pt += 1
+    ntasks = rng.choice([2, 2, 3])
+    ops = []
+    warm = rng.random() < 0.7
+    inherit = []
+    for i in range(ntasks):
+        h = rng.choice(["copy", "copy", "fresh"])
+        inherit.append(h)
+        ops.append(["spawn", h, warm, ["fn", rng.randrange(nf) if rng.random() < 0.3 else 0]])
+    budget = [rng.choice([2, 3, 4]) for _ in range(ntasks)]
+    slots = [i for i in range(ntasks) for _ in range(budget[i])]
+    style = rng.random()
+    if style < 0.15:
+        pass                                  # one after the other
+    elif style < 0.3:
+        slots = sorted(slots, key=lambda i: -i)
+    else:
+        rng.shuffle(slots)
+    for t in slots:
+        if mode == "asyncio" and rng.random() < 0.06:
+            ops.append(["cancel", t])
+        ops.append(["advance", t])
+    case = {"prog": prog, "mode": mode, "ops": ops, "warm_fn": 0}
+    if not small_enough(case, cap=120):
+        return gen_conc_case(rng, mode)
+    return case
+
+
+def cq_conc_case(case, fuel=30):
+    ops = []
+    for op in case["ops"]:
+        if op[0] == "spawn":
+            ops.append("CSpawn %s %s %s" % ("CopyOfCreator" if op[1] == "copy" else "Fresh", C.cq_bool(op[2]), cq_target(op[3])))
+        elif op[0] == "advance":
+            ops.append("CAdvance %d" % op[1])
+        else:
+            ops.append("CCancel %d 4%%Z" % op[1])
+    return "{| cc_prog := %s; cc_ops := %s; cc_fuel := %d |}" % (cq_program(case["prog"]), C.cq_list(ops), fuel)
+
+
+def cq_cobs(obs):
+    out = []
+    for tk in obs:
+        tr = C.cq_list(["EvSite (%s)" % cq_site(s) for s in tk["events"]])
+        o = tk["outcome"]
+        if o is None:
+            oc = "None"
+        elif o[0] == "ret":
+            oc = "Some (ORet true)"
+        elif o[0] == "user":
+            oc = "Some (OExn (EUser %d%%Z))" % o[1]
+        elif o[0] == "viol":
+            oc = "Some (OExn (EViol (%s)))" % cq_site(o[1])
+        else:
+            oc = "Some (OExn (EUser (-1)%Z))"
+        ks = C.cq_list(["KF %d" % k[1] if k[0] == "f" else ("KO %d" % k[1] if k[0] == "o" else "KF 4999")
+                        for k in tk["in_progress"]])
+        out.append("(%s, %s, %s)" % (tr, oc, ks))
+    return C.cq_list(out)
+
+
+# ------------------------------------------------------------------ sizing (generator-side only)
+def tree_size(prog, target, sigma=frozenset(), cap=400, self_obj=None):
+    """Number of pieces of user code one operation runs (an upper bound, following the marker rule);
+    used only to keep generated programs small enough to compare - never for verdicts."""
+    count = [0]
+
+    class TooBig(Exception):
+        pass
+
+    def script(sc, sig, so):
+        count[0] += 1
+        if count[0] > cap:
+            raise TooBig()
+        for a in sc[0]:
+            if a[0] == "call":
+                call(a[1], sig, so)
+
+    def call(t, sig, so):
+        if t[0] == "selfmeth":
+            t = ["meth", so, t[1]]
+        if t[0] == "fn":
+            fd = prog["fns"][t[1]]
+            key = ("f", t[1])
+            if key in sig:
+                script(fd["body"], sig, so)
+                return
+            s2 = sig | {key}
+            for g in fd["pre"]:
+                for sc in g:
+                    script(sc, s2, so)
+            if fd["post"]:
+                for sc in fd["snaps"]:
+                    script(sc, s2, so)
+            script(fd["body"], sig, so)
+            for sc in fd["post"]:
+                script(sc, s2, so)
+        else:
+            o = t[1]
+            cd = prog["classes"][prog["objs"][o]]
+            key = ("o", o)
+            body = cd["init"] if t[0] == "init" else cd["meths"][t[2]]
+            if key in sig:
+                script(body, sig, o)
+                return
+            s2 = sig | {key}
+            if t[0] == "meth":
+                for sc in cd["invs"]:
+                    script(sc, s2, o)
+            script(body, s2, o)
+            for sc in cd["invs"]:
+                script(sc, s2, o)
+    try:
+        call(target, frozenset(sigma), self_obj)
+    except TooBig:
+        return cap + 1
+    except RecursionError:
+        return cap + 1
+    return count[0]
+
+
+def small_enough(case, cap=250):
+    prog = case["prog"]
+    for op in case["ops"]:
+        t = op["target"] if isinstance(op, dict) else (op[3] if op[0] == "spawn" else None)
+        if t is not None and tree_size(prog, t, cap=cap) > cap:
+            return False
+    return True
